@@ -82,6 +82,33 @@ fn main() {
                 }
             }
         }
+        Some("digests") => {
+            // digests <profile> <count>: event-log digest of `count` runs, computed on
+            // VERIF_WORKERS threads, printed in seed order
+            let profile = args.get(2).cloned().unwrap_or("smoke".into());
+            let n: u64 = args.get(3).and_then(|s| s.parse().ok()).unwrap_or(100);
+            let workers: usize = std::env::var("VERIF_WORKERS").ok().and_then(|s| s.parse().ok()).unwrap_or(16);
+            let next = std::sync::atomic::AtomicU64::new(0);
+            let res = std::sync::Mutex::new(std::collections::BTreeMap::new());
+            std::thread::scope(|sc| {
+                for _ in 0..workers {
+                    sc.spawn(|| loop {
+                        let i = next.fetch_add(1, std::sync::atomic::Ordering::SeqCst);
+                        if i >= n {
+                            break;
+                        }
+                        let s = (seed << 32) + i;
+                        let plan = gen::generate(&profile, s).expect("profile");
+                        let r = run::run_plan(&plan);
+                        res.lock().unwrap().insert(i, (r.digest, r.entries.len(), r.end_ms));
+                    });
+                }
+            });
+            for (i, (d, e, t)) in res.lock().unwrap().iter() {
+                writeln!(out, "{} {} {:016x} events={} end_ms={}", profile, i, d, e, t).ok();
+            }
+            0
+        }
         Some("show") => {
             // show <profile> <seed> [filter]
             let profile = args.get(2).cloned().unwrap_or("smoke".into());
